@@ -99,6 +99,7 @@ class SimFile(object):
         self.sim = sim
         self.path = path
         self.rel = sim.rel(path)
+        self.tok = sim.token(path)
         self._mode = mode
         self._f = _REAL_OPEN(path, mode, buffering=0)
         self.pos = self._f.seek(0, 2) if 'a' in mode else 0      # byte offset in the file (append starts at its end)
@@ -109,7 +110,7 @@ class SimFile(object):
         sim = self.sim
         b = bytes(b)
         n = len(b)
-        ordinal = sim.next_event('write', self.rel, n)
+        ordinal = sim.next_event('write', self.tok, n)
         flt = self.fault
         if flt is not None and flt['at'] < self.pos + n:
             keep = max(0, flt['at'] - self.pos)
@@ -120,7 +121,7 @@ class SimFile(object):
             self._f.close()
             self.closed = True
             sim.fired(flt['kind'])
-            sim.log(('fault', flt['kind'], self.rel, self.pos))
+            sim.log(('fault', flt['kind'], self.tok, self.pos))
             if flt['kind'] == 'crash':
                 raise SimCrash('crash at byte %d of %s' % (self.pos, self.rel))
             raise OSError(errno.ENOSPC, 'No space left on device (simulated)', self.path)
@@ -134,7 +135,7 @@ class SimFile(object):
 
     def truncate(self, size=None):
         size = self.pos if size is None else size
-        self.sim.next_event('truncate', self.rel, size)
+        self.sim.next_event('truncate', self.tok, size)
         self._f.truncate(size)
         if 'a' not in self._mode:
             self._f.seek(min(self.pos, size))
@@ -162,7 +163,7 @@ class SimFile(object):
         if not self.closed:
             self._f.close()
             self.closed = True
-            self.sim.log(('close', self.rel, self.pos))
+            self.sim.log(('close', self.tok, self.pos))
 
     def __enter__(self):
         return self
@@ -259,7 +260,7 @@ class SimGlob(object):
         if self.perm_seed is not None and len(res) > 1:
             random.Random('%s/%d' % (self.perm_seed, self.calls)).shuffle(res)
             self.sim.fired('listing_perm')
-        self.sim.next_event('glob', self.sim.rel(pattern), len(res))
+        self.sim.next_event('glob', self.sim.token(pattern), len(res))
         return res
 
     def __getattr__(self, name):
@@ -296,11 +297,20 @@ class Sim(object):
         self._installed = []
         self._tmp_n = 0
         self._in_hook = False
+        self._tokens = {}
 
     # -- bookkeeping -------------------------------------------------------------------------
     def rel(self, path):
         p = str(path)
         return p.replace(self.root, '<root>')
+
+    def token(self, path):
+        """a stable token for a path in the event log: the code under test may choose file names that contain a pid or a
+        random suffix (temporary files that are renamed into place); names are therefore logged by order of first use"""
+        r = self.rel(path)
+        if r not in self._tokens:
+            self._tokens[r] = 'path%d' % len(self._tokens)
+        return self._tokens[r]
 
     def path(self, *parts):
         return os.path.join(self.root, *parts)
@@ -343,7 +353,7 @@ class Sim(object):
     def open(self, file, mode='r', *a, **kw):
         p = str(file)
         if 'b' in mode and ('w' in mode or 'a' in mode) and p.startswith(self.root):
-            self.log(('open', self.rel(p), mode))
+            self.log(('open', self.token(p), mode))
             return SimFile(self, p, mode)
         return _REAL_OPEN(file, mode, *a, **kw)
 
